@@ -143,8 +143,37 @@ def check_norm(env_unused, k):
         fb = small_forms(B, (k * 7 + 3) % 97)
         mC = C.formula_manager
         native = mC.And(mC.Symbol("a"), mC.Symbol("b"))       # native construction in the target, interleaved
+        # every third scenario: the target already owns some of the names with ANOTHER sort; a formula mentioning one of them has
+        # no structurally identical copy there, so normalize must refuse it
+        clash = set()
+        if k % 3 == 2:
+            from pysmt import typing as T
+            names = sorted(set(s.symbol_name() for f in fa + fb for s in rs.all_symbols(f)) - {"a", "b"})
+            for nm in names[(k // 3) % 4::4]:
+                src_ty = [s.symbol_type() for f in fa + fb for s in rs.all_symbols(f) if s.symbol_name() == nm][0]
+                if src_ty.is_int_type():
+                    other = T.REAL
+                elif src_ty.is_real_type():
+                    other = T.INT
+                elif src_ty.is_bv_type():
+                    other = C.type_manager.BVType(src_ty.width * 2)
+                elif src_ty.is_bool_type():
+                    other = T.INT
+                else:
+                    other = T.BOOL
+                mC.Symbol(nm, other)
+                clash.add(nm)
         for f, src in itertools.chain(*zip([(x, A) for x in fa], [(x, B) for x in fb])):
             rp = {"kind": "norm", "k": k}
+            if clash & set(s.symbol_name() for s in rs.all_symbols(f)):
+                try:
+                    g = mC.normalize(f)
+                except Exception:
+                    continue
+                return {"name": name, "status": "viol", "signature": "normalize/name-clash-accepted",
+                        "describe": "normalize(%s) into an environment where %s has another sort returned %s instead of refusing"
+                                    % (f.serialize()[:150], sorted(clash & set(s.symbol_name() for s in rs.all_symbols(f))),
+                                       g.serialize()[:150]), "replay": rp}
             try:
                 g = mC.normalize(f)
             except Exception as e:
